@@ -115,14 +115,15 @@ ReEnterCalib ==
 
 \* __exit__ of the object `id`: remove the hooks its handles point at.  Intended: the pair registered by the matching __enter__
 \* (the last live one of this object).  As built (Dev_C13_ReentryLeak): the pair registered by the LAST __enter__ of the object,
-\* even when that pair has already been removed.  Tombstones go once the object is not open any more.
+\* even when that pair has already been removed (so removed entries stay as tombstones while the object is open).
+\* CalibScope.tla checks this protocol on its own for histories of any length.
 LiveHooks(hs) == SelectSeq(hs, LAMBDA h : h.live)
 IdsOf(cs) == {cs[k].id : k \in 1..Len(cs)}
 ExitHooks(hs, id, rest) ==
   LET cand == {k \in 1..Len(hs) : hs[k].id = id /\ (Dev_C13_ReentryLeak \/ hs[k].live)}
       k == CHOOSE k \in cand : \A j \in cand : j <= k
       marked == IF cand = {} THEN hs ELSE [hs EXCEPT ![k].live = FALSE]
-  IN SelectSeq(marked, LAMBDA h : h.live \/ h.id \in IdsOf(rest))
+  IN SelectSeq(marked, LAMBDA h : h.live \/ (Dev_C13_ReentryLeak /\ h.id \in IdsOf(rest)))
 RECURSIVE Unwind(_, _)
 Unwind(cs, hs) == IF cs = <<>> THEN hs ELSE LET rest == SubSeq(cs, 1, Len(cs) - 1) IN Unwind(rest, ExitHooks(hs, cs[Len(cs)].id, rest))
 
